@@ -20,6 +20,7 @@ FirstDiff(a, b) ==
            D == {i \in 1..m : a[i] # b[i]}
        IN IF D = {} THEN m + 1 ELSE CHOOSE i \in D : \A j \in D : i <= j
 
+ToSetOf(s) == {s[i] : i \in DOMAIN s}
 Init == l = 1 /\ digest = <<>> /\ viol = {} /\ cur = <<>>
         /\ stat = [obs |-> 0, keys |-> 0, compared |-> 0, runs |-> 0, aborted |-> 0, steps |-> 0]
 TRun == /\ Rec.e = "Run" /\ cur' = Rec
@@ -43,8 +44,21 @@ TObs ==
 THang == /\ Rec.e = "Hang"
          /\ viol' = viol \cup {[clause |-> "C06.Terminates", rec |-> l, run |-> Rec.run, ev |-> Rec.ev]}
          /\ UNCHANGED <<digest, stat, cur>>
+\* tallies accumulated over all streams: a function of the set of events transported
+TTally ==
+  /\ Rec.e = "Tally"
+  /\ LET k == <<"tally", Rec.events>> IN
+     IF k \in DOMAIN digest
+     THEN /\ digest' = digest
+          /\ viol' = IF ToSetOf(digest[k].stream) = ToSetOf(Rec.actions) THEN viol
+                     ELSE viol \cup {[clause |-> "C07.TalliesSerialEquivalent", rec |-> l, run |-> Rec.run,
+                                      firstrun |-> digest[k].run]}
+     ELSE /\ digest' = [x \in (DOMAIN digest) \cup {k} |-> IF x = k THEN [stream |-> Rec.actions, run |-> Rec.run] ELSE digest[x]]
+          /\ viol' = viol
+  /\ UNCHANGED <<stat, cur>>
+TSchedule == Rec.e = "Schedule" /\ UNCHANGED <<digest, viol, stat, cur>>
 TClose == Rec.e = "Close" /\ UNCHANGED <<digest, viol, stat, cur>>
-Next == l <= N /\ l' = l + 1 /\ (TRun \/ TAborted \/ TObs \/ THang \/ TClose)
+Next == l <= N /\ l' = l + 1 /\ (TRun \/ TAborted \/ TObs \/ THang \/ TClose \/ TTally \/ TSchedule)
 Spec == Init /\ [][Next]_vars
 Accepted ==
   LET d == TLCGet("stats").diameter IN
